@@ -11,7 +11,8 @@ from .state import (ContractError, ForkRequest, Infeasible, Obligation, Outcome,
 from .values import (ClassVal, Cursor, DictObj, FrameObj, FuncVal, ListObj, Opt, RecObj, Ref, Rope, SetObj, StrSort, ValSort,
                      fresh_name, is_strterm, lit, to_z3, INTERN)
 
-FEAS_TIMEOUT_MS = 400
+FEAS_TIMEOUT_MS = 10000
+FEAS_RLIMIT = 2000000
 
 
 _QCACHE: dict = {}
@@ -112,6 +113,9 @@ class Interp(ExprMixin):
         """Over-approximate path feasibility: only the quantifier-free part of the path condition is consulted (dropping
         hypotheses can only make an infeasible path look feasible, never the converse), so the check stays cheap."""
         s = z3.Solver()
+        # a deterministic resource limit (not wall-clock time) decides when the check gives up, so the explored path set does not
+        # depend on machine load; the generous time limit is only a safety net
+        s.set("rlimit", FEAS_RLIMIT)
         s.set("timeout", FEAS_TIMEOUT_MS)
         for a in INTERN.axioms():
             s.add(a)
